@@ -30,7 +30,9 @@ VARIABLES t,        \* index of the trace being replayed
           fin,      \* set of computations that reported finished
           snapK,    \* cycle number of the last boundary snapshot (-1 = none yet)
           snapA,    \* assignment at that boundary
-          accepted, \* pairs {x, y} for which an accepted MGM2 offer was delivered since the boundary
+          accepted, \* <<{x, y}, k>>: an accepted MGM2 offer between x and y was delivered to the offerer while it was in its cycle k
+                    \* (the coordinated move it allows happens when both complete that cycle, i.e. between the snapshots A_k and A_k+1;
+                    \* with a lagging computation the delivery itself may precede the instant at which A_k is taken)
           inbox,    \* [<<src, dst>> -> Seq(value index)]: the values carried by the value messages delivered so far (DSA)
           bad,      \* set of <<clause, event index, context>> that failed; context = "pair" when an accepted
                     \* coordinated (MGM2) offer was delivered in the current cycle, else "solo"
@@ -116,7 +118,7 @@ NewBad(e, v2, c2, f2, ch2, rj2, st2, acc2, ib2) ==
         THEN {"C07_finished_at_wrong_cycle"} ELSE {})
   \cup (IF P("c03") /\ consecutive /\ Better(I, Cost(I, snapA), Cost(I, v2)) THEN {"C03_cost_got_worse"} ELSE {})
   \cup (IF P("c03") /\ consecutive /\ \E x, y \in Changed(snapA, v2) :
-              x # y /\ ShareCon(I, x, y) /\ {x, y} \notin acc2
+              x # y /\ ShareCon(I, x, y) /\ <<{x, y}, snapK>> \notin acc2
         THEN {"C03_neighbours_moved_together"} ELSE {})
   \cup (IF P("c04") /\ consecutive /\ snapA = v2 /\ ~OneOpt(I, v2) THEN {"C04_stagnation_not_one_opt"} ELSE {})
   \cup (IF P("dsa") /\ DsaMoveBad(e, v2, ib2, FALSE) THEN {"C06_dsa_move_not_best_response"} ELSE {})
@@ -126,7 +128,7 @@ NewBad(e, v2, c2, f2, ch2, rj2, st2, acc2, ib2) ==
 
 \* an accepted coordinated-move answer delivered between two computations
 AcceptedNow(e) == IF e.e \in {"deliver", "reinj"} /\ "accept" \in DOMAIN e /\ e.accept
-                  THEN {{e.src, e.c}} ELSE {}
+                  THEN {<<{e.src, e.c}, cyc[e.c]>>} ELSE {}
 
 Step ==
   /\ l <= Len(T.ev)
@@ -147,10 +149,10 @@ Step ==
             cons == nb /\ snapK >= 0 /\ k = snapK + 1
         IN
         /\ chan' = ch2 /\ reinj' = rj2 /\ started' = st2 /\ val' = v2 /\ cyc' = c2 /\ fin' = f2
-        /\ bad' = bad \cup {<<b, l, IF acc2 # {} THEN "pair" ELSE "solo">> : b \in NewBad(e, v2, c2, f2, ch2, rj2, st2, acc2, ib2)}
+        /\ bad' = bad \cup {<<b, l, IF \E a \in acc2 : a[2] = snapK THEN "pair" ELSE "solo">> : b \in NewBad(e, v2, c2, f2, ch2, rj2, st2, acc2, ib2)}
         /\ snapK' = IF nb THEN k ELSE snapK
         /\ snapA' = IF nb THEN v2 ELSE snapA
-        /\ accepted' = IF nb THEN {} ELSE acc2
+        /\ accepted' = acc2
         /\ inbox' = ib2
         /\ wit' = [boundaries |-> wit.boundaries + (IF cons THEN 1 ELSE 0),
                    stagnations |-> wit.stagnations + (IF cons /\ snapA = v2 THEN 1 ELSE 0),
